@@ -24,15 +24,15 @@ ASSUMPTIONS = [
 POOLS = [
     dict(cls=['A', 'Pose3', 'Zq'], ns=['ns', 'gtsam', 'n1', 'n2', 'inner'], tpl=['V', 'Map'],
          kw=['classy', 'constT', 'pairs', 'virtualX', 'int_t', 'voidp', 'staticK', 'templateZ', 'enumX',
-             'typedefd', 'namespaceN', 'boolean', 'Thiss'],
+             'typedefd', 'namespaceN', 'boolean', 'Thiss', 'const_iterator', 'static_pool_t', 'class_t', 'virtual_base', 'template_arg', 'typedef_t', 'pair_t', 'const_'],
          names=['a', 'b', 'c', 'x1', 'value', 'other'], fn=['f', 'g', 'doIt', 'getValue']),
     dict(cls=['B', 'Rot2', 'Kx'], ns=['m', 'gtsam', 'p1', 'p2', 'deep'], tpl=['W', 'Dict'],
          kw=['class_', 'const_', 'pair1', 'virtual1', 'intx', 'void_', 'static_', 'template_', 'enum_',
-             'typedefs', 'namespace_', 'doubleD', 'This_'],
+             'typedefs', 'namespace_', 'doubleD', 'This_', 'const_iterator', 'static_pool_t', 'class_t', 'virtual_base', 'template_arg', 'typedef_t', 'pair_t'],
          names=['u', 'v', 'w', 'y2', 'key', 'rhs'], fn=['h', 'k', 'run', 'compute']),
     dict(cls=['Cc', 'Point', 'Q9'], ns=['x', 'wrap', 'q1', 'q2', 'leaf'], tpl=['Vec', 'Pr'],
          kw=['classes', 'constant', 'paired', 'virtually', 'integer', 'voided', 'statics', 'templates', 'enums',
-             'typedefX', 'namespaces', 'chars', 'ThisX'],
+             'typedefX', 'namespaces', 'chars', 'ThisX', 'const_iterator', 'static_pool_t', 'class_t', 'virtual_base', 'template_arg', 'typedef_t', 'pair_t', 'const_'],
          names=['i', 'j', 'k', 'z3', 'name', 'lhs'], fn=['p', 'q', 'eval', 'update']),
 ]
 
@@ -170,7 +170,8 @@ def rets(P):
             single(T(P['tpl'][0], 0, '*', [T(c, 1, '&')])),
             # a pair type that itself carries a qualifier is an ordinary templated type named pair
             single(T('pair', 0, '&', [T(c), T('double')])), single(T('std::pair', 1, '*', [T('int'), T(c)])),
-            single(T('pair', 0, '@', [T(c, 0, '*'), T('int')]))]
+            single(T('pair', 0, '@', [T(c, 0, '*'), T('int')])),
+            single(T('my::pair', t=[T('int'), T(c, 0, '*')])), single(T(P['ns'][0] + '::pair', 1, '&', [T(c), T(c)]))]
 
 
 def arglists(P, maxn):
@@ -299,6 +300,8 @@ def nestings(P):
         ('split', lambda items: [D.ns(a, items[:1]), D.ns(b, items[1:])]),          # siblings
         ('reopen', lambda items: [D.ns(a, items[:1]), D.ns(a, items[1:])]),         # re-opened namespace
         ('mixed', lambda items: items[:1] + [D.ns(a, [D.ns(b, items[1:2])] + items[2:])]),
+        ('repeat', lambda items: [D.ns(a, [D.ns(b, [D.ns(a, items)])])]),            # a::b::a
+        ('repeat2', lambda items: [D.ns(a, [D.ns(a, items[:1] + [D.ns(b, [D.ns(a, items[1:])])])])]),   # a::a and a::a::b::a
     ]
 
 
@@ -320,7 +323,7 @@ def order_cases(P, n, m):
         for combo in itertools.product(range(9), repeat=L):
             items = [item_kinds(P, pos)[k][1]() for pos, k in enumerate(combo)]
             for name, wrapf in nestings(P):
-                if name in ('split', 'reopen', 'mixed') and L < 2:
+                if name in ('split', 'reopen', 'mixed', 'repeat2') and L < 2:
                     continue
                 yield 'order', wrapf(items)
     C = P['cls'][1]
@@ -409,7 +412,7 @@ def run(ctx):
         'distinct_nontrivial': len({D.render_tight(c['mod']) for c in cases}),
         'rule': 'complete enumeration of (1) type universe U(d) for d in %s placed in every type position, '
                 '(2) all flag/arity/default-mask combinations per declaration and member kind, '
-                '(3) all item sequences of length <= %d at 7 namespace nestings and all member sequences of '
+                '(3) all item sequences of length <= %d at 9 namespace nestings (depth 0..3, siblings, re-opened, chains that repeat a name) and all member sequences of '
                 'length <= %d; a case is one rendered module, distinct by token sequence; each parsed by the '
                 'real Module.parseString and compared with the reference projection' % (depths, n, m),
         'samples': samples,
